@@ -101,6 +101,13 @@ def cases(tier, seed):
     # exact power-of-two scalings (norm of A far below eps / far above 1/eps), exact-rank without oversampling (the sketch handed to the
     # inner QR has full rank, so no finding tag applies) and full-rank generic
     for routine in ("rand_qsvd", "pass_eff_qsvd"):
+        for j, cs_ in enumerate(("right_multiple", "sum_of_two", "zero_column")):
+            for (m_, n_, R_, P_) in ((8, 5, 4, 1), (8, 5, 3, 5), (4, 7, 3, 5), (6, 6, 4, 2), (7, 4, 2, 0)):
+                for it_ in (0, 1):
+                    out.append({"kind": "run", "cls": "colstruct", "routine": routine, "idx": 4 * 10 ** 6 + 100 * j + 10 * m_ + n_ + it_, "seed": seed, "maxd": maxd,
+                                "nseeds": 1 if tier == "quick" else 3,
+                                "fixed": {"m": m_, "n": n_, "R": R_, "P": P_, "r": min(m_, n_), "kind": "simple", "n_iter": it_, "n_passes": 2 + it_, "colstruct": cs_}})
+    for routine in ("rand_qsvd", "pass_eff_qsvd"):
         for j, sc_ in enumerate((2.0 ** -60, 2.0 ** -200, 2.0 ** 100, 2.0 ** -30)):
             for (m_, n_, R_, P_, r_, kind_) in ((9, 7, 3, 0, 3, "simple"), (6, 8, 2, 0, 2, "simple"), (7, 7, 3, 2, 7, "geometric")):
                 out.append({"kind": "run", "cls": "scaled", "routine": routine, "idx": 3 * 10 ** 6 + 10 * j + m_, "seed": seed, "maxd": maxd, "nseeds": 1,
@@ -182,6 +189,23 @@ def run_case(spec, ctx, R):
     rng = gen.rng_for(spec["seed"], "c12", spec["idx"])
     m, n, Rk, P, r, spec_kind, svals = _config(rng, spec)
     A, _, _ = refq.with_singular_values(rng, m, n, svals)
+    cs_ = (spec.get("fixed") or {}).get("colstruct")
+    if cs_:
+        # exact column structure in NON-trailing positions (a right multiple of another column, a sum of two columns, a zero column):
+        # the routine's Gaussian mixing makes it immune to where a dependency sits; the ground-truth spectrum is recomputed
+        c_ = refq.fa(refq.randq(rng, m, n)).copy()
+        Aq = refq.qa(c_)
+        if cs_ == "right_multiple" and n >= 2:
+            Aq[:, 1] = Aq[:, 0] * refq.randq(rng, 1, 1)[0, 0]
+        elif cs_ == "sum_of_two" and n >= 3:
+            Aq[:, 2] = Aq[:, 0] + Aq[:, 1]
+        elif cs_ == "zero_column" and n >= 2:
+            Aq[:, 1] = np.quaternion(0, 0, 0, 0)
+        A = Aq
+        svals = embed.svals(A)
+        svals = np.where(svals > 1e-12 * svals[0], svals, 0.0)
+        r = int(np.sum(svals > 0))
+        ctx.hit("inputs:column_structure")
     sc_ = (spec.get("fixed") or {}).get("scale")
     if sc_:
         # exact power-of-two scaling of the whole problem: every clause is relative to ||A||
